@@ -195,9 +195,15 @@ def _pandas_s1(program, res, rows):
             tmap = {k.value: v.value for k, v in zip(st.value.keys, st.value.values) if isinstance(k, ast.Constant) and isinstance(v, ast.Constant)}
     ext = program.method("pandas_base", "PandasModelBase", "_extend_step", inherited=False)
     zero_ops: Set[str] = set()
+    # the local that holds the operator name with its leading underscore stripped:  zero_op = opk.op[1:]
+    zero_vars = {st.targets[0].id for st in ast.walk(ext.node) if isinstance(st, ast.Assign) and len(st.targets) == 1 and isinstance(st.targets[0], ast.Name)
+                 and unparse(st.value).endswith(".op[1:]")} or {"zero_op"}
     for c in ast.walk(ext.node):
-        if isinstance(c, ast.Compare) and isinstance(c.left, ast.Name) and c.left.id == "zero_op" and isinstance(c.comparators[0], ast.Set):
-            zero_ops |= {e.value for e in c.comparators[0].elts if isinstance(e, ast.Constant)}
+        if isinstance(c, ast.Compare) and isinstance(c.left, ast.Name) and c.left.id in zero_vars and len(c.ops) == 1:
+            if isinstance(c.ops[0], ast.In) and isinstance(c.comparators[0], (ast.Set, ast.List, ast.Tuple)):
+                zero_ops |= {e.value for e in c.comparators[0].elts if isinstance(e, ast.Constant)}
+            elif isinstance(c.ops[0], ast.Eq) and isinstance(c.comparators[0], ast.Constant) and isinstance(c.comparators[0].value, str):
+                zero_ops.add(c.comparators[0].value)
     n = 0
     for r in rows:
         if r.get("Pandas") != "y":
